@@ -43,6 +43,11 @@ impl TscTimestamp {
     /// Reads the timestamp counter.
     #[inline(always)]
     pub fn start() -> Self {
+        #[cfg(divan_verif)]
+        if let Some(value) = crate::__verif::clock::read(false) {
+            return Self { value };
+        }
+
         #[allow(unused)]
         let value = 0;
 
@@ -58,6 +63,11 @@ impl TscTimestamp {
     /// Reads the timestamp counter.
     #[inline(always)]
     pub fn end() -> Self {
+        #[cfg(divan_verif)]
+        if let Some(value) = crate::__verif::clock::read(true) {
+            return Self { value };
+        }
+
         #[allow(unused)]
         let value = 0;
 
